@@ -23,7 +23,7 @@ Definition enc_x (x : xtime) : list Z :=
 
 Definition enc_on (o : option nat) : Z := match o with Some i => nz (S i) | None => 0 end.
 
-Definition chain_case (l : list Z) : list Z :=
+Definition run_case (l : list Z) : list Z :=
   match l with
   | 0 :: n :: r =>
       let c := dec_chain (zn n) r in
